@@ -1122,6 +1122,8 @@ pub fn gen_wide(rng: &mut Rng, o: &WideOpts) -> WProgram {
                         if let WItem::Func(f) = &nodes[e].item {
                             let mut g = f.clone();
                             g.shape = if f.shape == 'h' { 'p' } else { 'h' };
+                            // a second method of that name would be a second `struct S_<name>`: a redefinition, not an overload
+                            g.flags.retain(|c| c != 'M');
                             g.threads = None;
                             g.uses.clear();
                             g.calls.clear();
@@ -1557,6 +1559,8 @@ pub fn gen_wide(rng: &mut Rng, o: &WideOpts) -> WProgram {
     for i in order {
         if let WItem::Func(f) = &nodes[i].item {
             let dup = items.iter().any(|it| match it {
+                // every method is wrapped in a struct of its own, named after the method: one per name and namespace
+                WItem::Func(g) if g.name == f.name && g.flags.contains('M') && f.flags.contains('M') && g.flags.contains('N') == f.flags.contains('N') => true,
                 WItem::Func(g) => {
                     g.name == f.name
                         && g.shape == f.shape
